@@ -214,3 +214,52 @@ def optimised_interpreter_probe(res, what):
     for f in out["findings"]:
         res.violations.append({"kind": "in an interpreter started with -O (assert statements compiled out): " + f,
                                "replay": "cd /verif && SKEPTICOIN_REPO=%s %s -O -m harness.probe_opt %s" % (REPO, sys.executable, what)})
+
+
+def concurrent_probe(res, tag, make_jobs, seconds=2.0, threads=4):
+    """functions the properties treat as functions, called from several threads of one process at once (a node has a networking
+    thread, a miner-watcher thread and whatever the embedding program runs): `make_jobs()` returns a fresh list of
+    (callable, expected result, description); the callables of one round run concurrently with a very small thread switch
+    interval, round after round for `seconds`; every result must equal the expected one. A sampled search, not a proof: it
+    finds shared scratch state only with high probability."""
+    import threading
+    old = sys.getswitchinterval()
+    sys.setswitchinterval(1e-6)
+    deadline = time.time() + seconds
+    rounds = wrong = 0
+    first = None
+    try:
+        while time.time() < deadline and first is None:
+            jobs = make_jobs()
+            out = [None] * len(jobs)
+            barrier = threading.Barrier(min(threads, len(jobs)))
+
+            def work(idx):
+                try:
+                    barrier.wait(timeout=5)
+                except Exception:
+                    pass
+                for j in range(idx, len(jobs), threads):
+                    try:
+                        out[j] = ("ok", jobs[j][0]())
+                    except BaseException as e:
+                        out[j] = ("raised", repr(e))
+            ts = [threading.Thread(target=work, args=(i,), daemon=True) for i in range(min(threads, len(jobs)))]
+            for t in ts:
+                t.start()
+            for t in ts:
+                t.join(30)
+            rounds += 1
+            for j, (fn, want, what) in enumerate(jobs):
+                if out[j] != ("ok", want):
+                    wrong += 1
+                    if first is None:
+                        first = (what, out[j], want)
+    finally:
+        sys.setswitchinterval(old)
+    res.case(("concurrent", tag), nontrivial=True)
+    res.count("concurrent_probe_rounds:" + tag, rounds)
+    if first is not None:
+        what, got, want = first
+        res.violations.append({"kind": "called from %d threads of one process at once, %s gave %s instead of %s (%s)"
+                                       % (threads, tag, str(got)[:160], str(want)[:120], what)})
